@@ -117,6 +117,8 @@ class CoreMixin:
             if a is not None and a == b:
                 return a
             return None
+        if n.op == "Input" and n.extra and n.extra.get("kind") in ("array", "int", "float", "obj"):
+            return True
         if n.op == "Cfg":
             t = self.cfg_type(n.attr)
             if t is not None:
